@@ -243,14 +243,16 @@ def run_all(ctx, scheds, expects=None):
             async with fe.Server() as srv:
                 import time as _t
                 slow = 0
+                guided = True
                 for i, s in enumerate(scheds):
                     t0 = _t.time()
-                    results.append(await run_schedule(fe, fx, srv, f"ov{i:05d}", s, expects[i] if expects else None))
-                    # a run that waits out its time-outs means the implementation left the model's path: a handful of those
-                    # decide the verdict, the rest would only cost minutes
+                    results.append(await run_schedule(fe, fx, srv, f"ov{i:05d}", s, expects[i] if (expects and guided) else None))
+                    # a run that waits out its time-outs means the implementation left the model's path: after a handful of
+                    # those the remaining schedules are executed WITHOUT waiting for the states the model predicts (fixed
+                    # settling time per step) — the property is evaluated on what was actually observed either way
                     slow = slow + 1 if (_t.time() - t0) > 2.5 else 0        # consecutive slow runs only
-                    if slow >= 6:
-                        break
+                    if slow >= 3:
+                        guided = False
         asyncio.run(main())
     finally:
         fe.teardown()
